@@ -833,6 +833,13 @@ def sle_configs(tier):
     for pkg, phases, pat, calls, gamma, k in fam:
         nm = f"{pkg}/{phases}/" + ','.join(f'{i[0]}{v}' for i, v in pat.items()) + f"/{'+'.join(calls)}/gamma={gamma}/k={k}"
         out.append({'name': nm, 'pkg': pkg, 'phases': phases, 'pattern': pat, 'calls': calls, 'gamma': gamma, 'k': k})
+    # histories in which the solute amount changes BETWEEN calls (added after seeded change C15_2: a call with a given solubility
+    # that works with the amount remembered from an earlier call)
+    for edit in ('add-solid', 'scale', 'remove-some'):
+        for calls in (['T', 'Tx'], ['Tx', 'Tx']):
+            if calls == ['Tx', 'Tx'] and edit != 'add-solid' and tier == 'quick': continue
+            nm = f"WT/ls/W+0,T++/{'+'.join(calls)}/gamma=ideal/k=0/edit={edit}"
+            out.append({'name': nm, 'pkg': 'WT', 'phases': 'ls', 'pattern': {'Water': '+0', SOLUTE: '++'}, 'calls': calls, 'gamma': 'ideal', 'k': 0, 'edit': edit})
     return out
 
 
@@ -864,6 +871,18 @@ def sle(w, cfg):
         P0 = s.P
         for n, call in enumerate(cfg['calls']):
             tag = f'call {n}: '
+            if n and cfg.get('edit'):
+                # the stream is edited between the calls: the next call must work with what is present NOW
+                i_sol = chems.index(SOLUTE)
+                rows = dict(W.rows_of(s))
+                if cfg['edit'] == 'add-solid':
+                    rows['s'].dct[i_sol] = rows['s'].dct.get(i_sol, 0.) + w.real(f'added{n}', lo=0., lo_strict=True)
+                elif cfg['edit'] == 'scale':
+                    s.scale(w.real(f'scale{n}', lo=1e-3, hi=1e3))
+                elif cfg['edit'] == 'remove-some':
+                    frac = w.real(f'keep{n}', lo=0., hi=1., lo_strict=True, hi_strict=True)
+                    for ph in 'ls':
+                        if i_sol in rows[ph].dct: rows[ph].dct[i_sol] = rows[ph].dct[i_sol] * frac
             T = w.real(f'T{n}', lo=250., hi=450.)
             kw = {'T': T}
             if call == 'Tx':
